@@ -180,7 +180,7 @@ func (h *hostileRunner) run(family, class string, input []byte) {
 }
 
 func runC05(c *mon.Ctx) {
-	c.Rule("inputs: (A) structure-aware mutants of valid CBOR claims (P1, P2, both extension profiles), component lists, COSE envelopes (also mutated inside the payload and inside the protected header) and serialisations of 7 codec shapes: at a random node of the independent AST replace by null / undefined / empty and boundary values of every type / tag- / array- / bstr-wrap, delete, duplicate (same key twice), swap, then re-encode with random non-minimal and indefinite lengths; (B) the same on JSON documents (member := null / \"\" / [] / {} / numbers beyond 64 bit / wrong type, delete, duplicate incl. case variants, rename, swap); (A0) every claims item of the corpus (incl. the P1 no-software-measurements form) x every claim name / key of either profile, present or not := each special value (null, undefined, [], {}, empty string, 0, [null], ...); (C) byte level: every possible header byte followed by 0..9 argument bytes (bare, behind tags, as a map value); truncation at every offset of items re-encoded with all arguments forced to 1/2/4/8 bytes; truncation at every offset, all 256 substitutions at every offset of sample items, random splices of two items, insertions, deletions, lone header bytes of every major type at the end of input, random strings; each input goes to every decoding entry point of its family (COSE evidence x3, dispatching CBOR/JSON decoders validating and not, deprecated aliases, P1/P2/extension/container unmarshal methods (destinations made by the constructors and struct-literal destinations without component container), encoding.PopulateStructFromCBOR/JSON on flat / embedded / interface-embedded shapes) under recover(); whatever is returned without error is validated, read through every getter and component getter, re-encoded (CBOR, JSON, validating and not), attached, verified against 8 keys/non-keys. One child process per shard with a write-ahead log; the supervisor attributes process deaths (fatal errors) to the in-flight input and resumes after it. Oracle: no panic, no process death. distinct_nontrivial = distinct (family, kind, mutation classes) signatures")
+	c.Rule("inputs: (A) structure-aware mutants of valid CBOR claims (P1, P2, both extension profiles), component lists, COSE envelopes (also mutated inside the payload and inside the protected header) and serialisations of 7 codec shapes: at a random node of the independent AST replace by null / undefined / empty and boundary values of every type / tag- / array- / bstr-wrap, delete, duplicate (same key twice), swap, then re-encode with random non-minimal and indefinite lengths; (B) the same on JSON documents (member := null / \"\" / [] / {} / numbers beyond 64 bit / wrong type, delete, duplicate incl. case variants, rename, swap); (A0) every claims item of the corpus (incl. the P1 no-software-measurements form) x every claim name / key of either profile, present or not := each special value (null, undefined, [], {}, empty string, 0, [null], texts whose octet and character lengths straddle 64 / 255, ...); (C) byte level: every possible header byte followed by 0..9 argument bytes (bare, behind tags, as a map value); truncation at every offset of items re-encoded with all arguments forced to 1/2/4/8 bytes; truncation at every offset, all 256 substitutions at every offset of sample items, random splices of two items, insertions, deletions, lone header bytes of every major type at the end of input, random strings; each input goes to every decoding entry point of its family (COSE evidence x3, dispatching CBOR/JSON decoders validating and not, deprecated aliases, P1/P2/extension/container unmarshal methods (destinations made by the constructors and struct-literal destinations without component container), encoding.PopulateStructFromCBOR/JSON on flat / embedded / interface-embedded shapes) under recover(); whatever is returned without error is validated, read through every getter and component getter, re-encoded (CBOR, JSON, validating and not), attached, verified against 8 keys/non-keys. One child process per shard with a write-ahead log; the supervisor attributes process deaths (fatal errors) to the in-flight input and resumes after it. Oracle: no panic, no process death. distinct_nontrivial = distinct (family, kind, mutation classes) signatures")
 	if err := extprof.Register(extprof.ExtP2Name, extprof.ExtP1Name); err != nil {
 		c.Violation("harness/register", err.Error(), nil)
 		return
@@ -284,7 +284,8 @@ func runC05(c *mon.Ctx) {
 		jsonNames := []string{"psa-profile", "eat-profile", "psa-client-id", "psa-security-lifecycle", "psa-implementation-id", "psa-boot-seed", "psa-certification-reference", "psa-software-components", "psa-no-software-measurements", "psa-no-sw-measurement", "psa-nonce", "psa-instance-id", "psa-verification-service-indicator", "timestamp", "x-extra"}
 		cborKeys := []int64{10, 256, 265, 2394, 2395, 2396, 2397, 2398, 2399, 2400, -75000, -75001, -75002, -75003, -75004, -75005, -75006, -75007, -75008, -75009, -75010, -75100, -75200}
 		cborSpecials := func() []*refcbor.Node {
-			return []*refcbor.Node{refcbor.Null(), refcbor.Undef(), refcbor.Arr(), refcbor.MapOf(), refcbor.Bstr(nil), refcbor.Tstr(""), refcbor.U(0), refcbor.U(1), refcbor.Arr(refcbor.Null()), refcbor.Arr(refcbor.MapOf()), refcbor.Tagged(1, refcbor.Null())}
+			return []*refcbor.Node{refcbor.Null(), refcbor.Undef(), refcbor.Arr(), refcbor.MapOf(), refcbor.Bstr(nil), refcbor.Tstr(""), refcbor.U(0), refcbor.U(1), refcbor.Arr(refcbor.Null()), refcbor.Arr(refcbor.MapOf()), refcbor.Tagged(1, refcbor.Null()),
+				refcbor.Tstr(model.LongTexts[0]), refcbor.Tstr(model.LongTexts[1]), refcbor.Tstr(model.LongTexts[3]), refcbor.Tstr(model.LongTexts[6]), refcbor.Tstr(model.LongTexts[7]), refcbor.Bstr(bytesOf(0xc3, 70))}
 		}
 		idx := 0
 		for _, it := range corpus {
